@@ -41,6 +41,7 @@ class Lock:
 
 FACTS_DYNAMIC = []
 FORWARDERS = {}
+TRANSCRIBED = {}
 
 
 def extract_facts():
@@ -51,6 +52,13 @@ def extract_facts():
         rc, out = sh([sys.executable, script])
         # second translator: the wrapper layer (element enums, resolved wrappers) as a table of forwarders
         rcf, outf = sh([sys.executable, os.path.join(VERIF, "tools", "extract_forwarders.py")])
+        # third translator: function bodies transcribed into the deep embedding (Generated/RsFns.lean)
+        rct, outt = sh([sys.executable, os.path.join(VERIF, "tools", "rs2lean.py")])
+    TRANSCRIBED.clear()
+    try:
+        TRANSCRIBED.update(json.loads(outt) if rct == 0 else {"error": outt[-300:]})
+    except Exception:
+        TRANSCRIBED.update({"error": outt[-300:]})
     FORWARDERS.clear()
     try:
         FORWARDERS.update(json.loads(outf) if rcf == 0 else {"error": outf[-300:]})
